@@ -106,10 +106,13 @@ def tensor_digest(t):
     return dig((tuple(t.struct), tuple((s.slcs, s.D, s.Dp) for s in t.slices), np.asarray(t._data), t.mfs, tuple(tuple(h) for h in t.hfs), tuple(t.trans), t.isdiag))
 
 
-def run_prog(prog, sym, ferm, rule_sym, mode, rng, rec):
+POLICIES = ('fuse_to_matrix', 'fuse_contracted', 'no_fusion')
+
+
+def run_prog(prog, sym, ferm, rule_sym, mode, rng, rec, policy='fuse_to_matrix'):
     """ execute prog under (sym, ferm) with initial blocks chosen by rule_sym; mode in warm/cold/one/chaos; returns list of register digests """
     import yastn
-    cfg = T.make_config(sym, ferm)
+    cfg = T.make_config(sym, ferm, policy=policy)
     if mode == 'cold':
         yastn.set_cache_maxsize(0)
         rec.install()
@@ -130,11 +133,14 @@ def run_prog(prog, sym, ferm, rule_sym, mode, rng, rec):
                 rec.install()
         out, res = T.apply_op(op, regs)
         if out == 'ok':
-            regs.append(res)
+            if op.get('reg', True):
+                regs.append(res)
             outs.append(tensor_digest(res))
         elif out == 'num':
             outs.append(dig(complex(res)))
         else:
+            if op.get('reg', False):
+                regs.append(None)       # the generating execution defined a register here: the numbering stays aligned, later uses report 'operand missing'
             outs.append(out)
     if mode in ('cold', 'one', 'chaos'):
         yastn.set_cache_maxsize(1024)
@@ -173,12 +179,15 @@ def family_job(args):
             progs.append((seed, T.generate(rule_sym, cfgs[0][1], seed, nsteps, WEIGHTS, want_diag=(seed % 3 == 0))[0]))
             # operands fused from legs with different sector content (masks, intersections, unions of fusion records)
             progs.append((seed, c03.scenario_runner((rule_sym, seed, ('S1', 'S2', 'S1')[seed % 3])).prog))
+            # contractions over two or three legs at once (several block pairs contribute to one result block: the cached plans of the policies hold lists per block)
+            progs.append((seed, c03.scenario_runner((rule_sym, seed, 'S5')).prog))
         modes = ('warm', 'warm2', 'cold', 'one', 'chaos')
         res = {}
         for mode in modes:        # all configurations of the family share the warm caches before any resize happens
             for pi, (seed, prog) in enumerate(progs):
                 for sym, ferm in cfgs:
-                    res[(pi, sym, str(ferm), mode)] = run_prog(prog, sym, ferm, rule_sym, 'warm' if mode == 'warm2' else mode, rng, rec)
+                    # every program runs under ONE tensordot policy in all its cache states (each policy has its own cached metadata functions); the policy rotates over the programs
+                    res[(pi, sym, str(ferm), mode)] = run_prog(prog, sym, ferm, rule_sym, 'warm' if mode == 'warm2' else mode, rng, rec, policy=POLICIES[(pi + pi // 3) % 3])
         for pi, (seed, prog) in enumerate(progs):
             for sym, ferm in cfgs:
                 for k in range(len(prog.ops)):
